@@ -192,6 +192,9 @@ class SimpleLoop(Loop[World]):
 
         See :meth:`Loop.start` for more details.
         """
+        # Also reset before starting: a previous start may have been
+        # interrupted by an exception
+        self.last_timestamp = None
         super().start()
         self.last_timestamp = None
 
